@@ -996,6 +996,16 @@ class ByDimensionsDatasetRecordStorageManagerUUID(DatasetRecordStorageManager):
             TimespanReprClass.update(timespan, result=row)
             rows.append(row)
             if data_ids is not None:
+                if dataset.dataId in data_ids and not timespan.isEmpty():
+                    # The check query below only sees rows that are already
+                    # in the table, so two datasets with the same data ID in
+                    # one call have to be caught here (a database exclusion
+                    # constraint would reject them).
+                    raise ConflictingDefinitionError(
+                        f"Validity range conflict certifying datasets of type {dataset_type.name!r} "
+                        f"into {collection.name!r}: more than one dataset with data ID {dataset.dataId} "
+                        f"for range {timespan}."
+                    )
                 data_ids.add(dataset.dataId)
         if not rows:
             # Just in case an empty dataset collection is provided we want to
